@@ -7,6 +7,7 @@ import (
 	"go/ast"
 	"go/token"
 	"go/types"
+	"strings"
 )
 
 func init() { register("C29", checkC29) }
@@ -28,6 +29,8 @@ func checkC29(p *Prog, r *Result, tier string) {
 	r.min("H2", 1)
 	r.min("CH", 1)
 	r.min("FD", 2)
+	r.min("RO", 1)
+	checkSharedChunkReadOnly(p, r)
 	for _, nm := range []string{"cluster/calcium.(*Calcium).SendLargeFile", "cluster/calcium.(*Calcium).Send"} {
 		F := p.Fn(nm)
 		if F == nil {
@@ -329,5 +332,90 @@ func checkChunker(p *Prog, r *Result) {
 		r.ok("CH", key, p.pos(loop), "loop condition `"+cond+"` admits a first iteration for an empty file (or an explicit empty-file chunk is appended)")
 	} else {
 		r.bad("CH", key, p.pos(loop), "loop condition `"+cond+"` makes zero iterations for an empty file: no chunk, no sender, no result for any target, and the file is never created")
+	}
+}
+
+// RO: one chunk message (pointer) is handed to the sender of every target, so a receiver must treat it as read-only:
+// no function of cluster/calcium assigns to a field or element of a *types.SendLargeFileOptions it received from a channel.
+func checkSharedChunkReadOnly(p *Prog, r *Result) {
+	isOpt := func(t types.Type) bool {
+		return t != nil && strings.HasSuffix(t.String(), "types.SendLargeFileOptions")
+	}
+	n := 0
+	for _, fn := range p.sortedFuncs("cluster/calcium") {
+		// variables bound to a received message
+		recv := map[types.Object]bool{}
+		fn.inspectBody(func(x ast.Node) bool {
+			switch s := x.(type) {
+			case *ast.RangeStmt:
+				if ch, ok := fn.typeOf(s.X).Underlying().(*types.Chan); ok && isOpt(ch.Elem()) && s.Key != nil {
+					recv[fn.objOf(s.Key)] = true
+				}
+			case *ast.AssignStmt:
+				if len(s.Rhs) == 1 {
+					if u, ok := unparen(s.Rhs[0]).(*ast.UnaryExpr); ok && u.Op == token.ARROW && isOpt(fn.typeOf(s.Rhs[0])) {
+						recv[fn.objOf(s.Lhs[0])] = true
+					}
+				}
+			}
+			return true
+		})
+		// parameters of that type count as received too (send(chunk))
+		for i := 0; ; i++ {
+			o := fn.paramObj(i)
+			if o == nil {
+				break
+			}
+			if isOpt(o.Type()) {
+				recv[o] = true
+			}
+		}
+		if len(recv) == 0 {
+			continue
+		}
+		n++
+		var bad []string
+		baseOf := func(e ast.Expr) types.Object {
+			for {
+				switch x := unparen(e).(type) {
+				case *ast.SelectorExpr:
+					e = x.X
+				case *ast.IndexExpr:
+					e = x.X
+				case *ast.SliceExpr:
+					e = x.X
+				case *ast.StarExpr:
+					e = x.X
+				case *ast.Ident:
+					return fn.objOf(x)
+				default:
+					return nil
+				}
+			}
+		}
+		ast.Inspect(fn.Body, func(x ast.Node) bool {
+			var lhs []ast.Expr
+			switch s := x.(type) {
+			case *ast.AssignStmt:
+				lhs = s.Lhs
+			case *ast.IncDecStmt:
+				lhs = []ast.Expr{s.X}
+			}
+			for _, l := range lhs {
+				if _, plain := unparen(l).(*ast.Ident); plain {
+					continue
+				}
+				if o := baseOf(l); o != nil && recv[o] {
+					bad = append(bad, exprStr(l)+" at "+p.pos(x))
+				}
+			}
+			return true
+		})
+		key := fn.Name + " / a received file chunk is not modified (the same message goes to every target)"
+		r.check(len(bad) == 0, "RO", key, p.pos(fn.Body), "no write through the received message",
+			"writes "+strings.Join(bad, "; ")+": the chunk object is shared by the senders of all targets, so a target that is behind reads the modified (emptied) chunk and gets different content while still reporting success")
+	}
+	if n == 0 {
+		r.undecided("RO", "cluster/calcium / receivers of file chunks", "", "no function receives *types.SendLargeFileOptions")
 	}
 }
